@@ -318,6 +318,60 @@ func setFloatOracle(prec uint, f float64) {
 	oracle("BigFloat_SetFloat64", M{"prec": int(prec), "x": strconv.FormatUint(math.Float64bits(f), 10), "bf": bfKey(z), "acc": int(z.Acc())})
 }
 
+// contractOracles asks the standard library the questions the oracle CONTRACTS quantify over, on directed boundary values beyond
+// those the switch / helper cases happen to ask: the answers land in the oracle tables, and the check instantiates every premise
+// of the C13 theorems on all table entries (coq/model/NumContracts.v).
+func contractOracles(B []*big.Int) int {
+	before := len(oracleSeen)
+	// strconv / math/big text: every boundary integer printed and parsed back (all bit sizes), and the hand-written strings
+	for _, v := range B {
+		if v.IsInt64() {
+			oracle("FormatInt", M{"x": v.String(), "s": strconv.FormatInt(v.Int64(), 10)})
+		}
+		oracle("BigText", M{"x": v.String(), "s": v.Text(10)})
+		stringOracles(v.String())
+		if v.Sign() >= 0 {
+			stringOracles("+" + v.String())
+		}
+	}
+	for _, s := range sourceStrings {
+		stringOracles(s)
+	}
+	// IEEE narrowing / widening / == / IsNaN and big.Float.SetFloat64 at every preset precision
+	var fs []float64
+	fs = append(fs, f64Samples...)
+	fs = append(fs, f32Edge...)
+	fs = append(fs, precSamples...)
+	for i := 0; i < 60; i++ {
+		fs = append(fs, math.Float64frombits(rnd.Uint64()), float64(math.Float32frombits(rnd.Uint32())))
+	}
+	fs = append(fs, f64RandomNear32(60)...)
+	for i := 0; i < 24; i++ { // NaN patterns: either sign, quiet and signalling, random payloads
+		fs = append(fs, math.Float64frombits(0x7ff0000000000000|rnd.Uint64()&0x800fffffffffffff|uint64(1)<<uint(rnd.Intn(52))))
+	}
+	for _, f := range fs {
+		f64Oracles(f)
+		for _, p := range destPrecs {
+			setFloatOracle(p, f)
+		}
+		// == between a value and its neighbours / its negation / itself (NaN != NaN, +0 == -0)
+		for _, g := range []float64{f, -f, math.Nextafter(f, math.Inf(1)), float64(float32(f))} {
+			oracle("f64_eqb", M{"x": strconv.FormatUint(math.Float64bits(g), 10), "y": strconv.FormatUint(math.Float64bits(f), 10), "r": g == f})
+		}
+	}
+	for _, b32 := range []uint32{0, 0x80000000, 1, 0x007fffff, 0x00800000, 0x7f7fffff, 0x7f800000, 0xff800000, 0x7fc00000, 0xffc00000, 0x7f800001, 0x7fa00000, 0x3f800000, 0x3f800001} {
+		f32Oracles(math.Float32frombits(b32))
+	}
+	// big.Float.Float64 on every directed *big.Float class
+	for _, c := range bfDirected() {
+		bigFloatOracle(c.x)
+	}
+	for _, c := range bfRandom(100) {
+		bigFloatOracle(c.x)
+	}
+	return len(oracleSeen) - before
+}
+
 func f32Oracles(n float32) {
 	oracle("f32_to_f64", M{"x": strconv.FormatUint(uint64(math.Float32bits(n)), 10), "y": strconv.FormatUint(math.Float64bits(float64(n)), 10)})
 }
@@ -635,7 +689,7 @@ func runFromSwitches(tab *numTable, B []*big.Int) int {
 				continue
 			}
 			if j.r.Bits != 0 {
-				oracle("FormatInt", M{"x": v.String(), "s": v.String()})
+				oracle("FormatInt", M{"x": v.String(), "s": strconv.FormatInt(v.Int64(), 10)})
 			} else {
 				oracle("BigText", M{"x": v.String(), "s": v.Text(10)})
 			}
@@ -1318,6 +1372,7 @@ func main() {
 	counts["from"] = runFromSwitches(&tab, B)
 	counts["wire"] = runWire(B)
 	counts["time"] = runTime(B)
+	counts["contract_oracle_queries"] = contractOracles(B)
 	predEncode(srcs)
 	predDecode(B)
 	predFloats()
